@@ -469,7 +469,10 @@ def near_miss_rejects(ctx, table, cases, objdir):
             for fld_t, fld_w in (("a", "aw"), ("b", "bw")):
                 if c.get(fld_w):
                     pre.bf.add((c[fld_t], c[fld_w]))
-            e = expr_texts(c)[0]
+            texts = expr_texts(c)
+            if not texts:
+                continue         # e.g. the decimal constant of value 0 does not exist ("0" is octal)
+            e = texts[0]
             todo.append((c, e, n, pre.text() + "__typeof__(%s) *p = (%s *)0;\n" % (e, SPELL[n])))
 
     def one(t):
